@@ -622,6 +622,7 @@ func purgeCaches(p *Prog) {
 		}
 		return ownFn(v.Parent())
 	}
+	windowCache.Delete(p.Prog)
 	lemmaCache.Range(func(k, _ any) bool {
 		if f, ok := k.(*ssa.Function); ok && ownFn(f) {
 			lemmaCache.Delete(k)
